@@ -5,7 +5,7 @@
    - logging / formatting: identity or no-op
    - harness helpers: vp_cfg*, vp_fresh_bytes, vp_set_byte, vp_byte_at
    Uses only these names of qt_core.c: QAD, struct qb, QB_CAP, QB_OFF, REF, qad_ref, qad_deref, BD, umin, VP_IS_QB, VP_BLK_DYN,
-   VP_REG_BLK, qb_eq. */
+   VP_REG_BLK, qb_eq, and (native replay only) the block registry vp_blks / vp_nblk. */
 #ifdef HAVE_T_struct_QArrayData
 #undef _ZN10QByteArrayC1Eic
 #undef _ZN10QByteArray6resizeEi
@@ -15,6 +15,43 @@
 #undef _ZN7QString15fromUtf8_helperEPKci
 #define XHINT(d) ((d)->f3 == QB_OFF ? ((struct qb*)(d))->hint : (d)->f1)          /* evaluated inside loop conditions */
 #define XBYTES(d) ((d)->f3 == QB_OFF ? (const uint8_t*)BD(d) : (const uint8_t*)((const char*)(d) + (d)->f3))
+/* ================= C14 safety: LOGICAL bounds of raw pointers into byte arrays =================
+   Model blocks own QB_CAP + 1 bytes whatever their logical size (h.f1) is, and model code is exempt from cbmc's pointer instrumentation:
+   a model that is handed a raw `const char *` (QByteArray(const char*, int), fromRawData, append/insert/replace(const char*, ..), memcpy,
+   qstrncmp, readRawData/writeRawData, fromUtf8, ...) must therefore check the range [p, p + n) itself, against the LOGICAL size of the byte
+   array the pointer points into.  Reads may touch data()[size] (the terminating NUL Qt guarantees), writes may not.
+   cbmc: the containing block is found from the pointer: __CPROVER_POINTER_OFFSET(p) folds, `p - offset` is the block base whose header
+   holds the logical size; a block is recognised by being a dynamic object of sizeof(struct qb) whose header says offset == QB_OFF.  The
+   frequent case "p is the first byte of a block" is decided by the offset alone (VP_IS_QB; this also covers shared_null, whose data
+   pointer has offset QB_OFF and whose size is 0).  A pointer that is not inside a model block (stack buffer, string literal, static
+   QByteArrayLiteral data) is checked against its C object with __CPROVER_r_ok / __CPROVER_w_ok.
+   native replay (gcc): the registry of live blocks of qt_core.c (vp_blks[1]: every qb_new / qbv_new / qbv_copy registers its block) maps
+   the address back to the header, so that the same PROPERTY assertion fails natively on the solver's inputs; other pointers are skipped.
+   VP_SAFE(c, text): property-level assertion "C14 safety: text", then the path is cut (ASSUME) so that no follow-up MODEL limit of the
+   same run turns the verdict into "inconclusive". */
+#define VP_QBH(p) ((struct qb*)((char*)(p) - QB_OFF))
+#ifdef __CPROVER__
+#define VP_RAW_OFF(p) ((uint64_t)__CPROVER_POINTER_OFFSET(p))
+#define VP_RAW_HDR(p) ((struct qb*)((char*)(p) - __CPROVER_POINTER_OFFSET(p)))
+#define VP_RAW_INBLK(p) (__CPROVER_DYNAMIC_OBJECT(p) && __CPROVER_OBJECT_SIZE(p) == sizeof(struct qb) && VP_RAW_OFF(p) >= QB_OFF && VP_RAW_HDR(p)->h.f3 == QB_OFF)
+#define VP_RAW_LOGI(p, n, slack) (VP_RAW_OFF(p) - QB_OFF + (uint64_t)(n) <= (uint64_t)VP_RAW_HDR(p)->h.f1 + (slack))
+#define VP_RAW_R_OK(p, n) ((uint64_t)(n) == 0 || (VP_IS_QB(p) ? (uint64_t)(n) <= (uint64_t)VP_QBH(p)->h.f1 + 1 : VP_RAW_INBLK(p) ? VP_RAW_LOGI(p, n, 1) : __CPROVER_r_ok((const char*)(p), (uint64_t)(n))))
+#define VP_RAW_W_OK(p, n) ((uint64_t)(n) == 0 || (VP_IS_QB(p) ? (uint64_t)(n) <= (uint64_t)VP_QBH(p)->h.f1 : VP_RAW_INBLK(p) ? VP_RAW_LOGI(p, n, 0) : __CPROVER_w_ok((char*)(p), (uint64_t)(n))))
+/* offset of p inside the data of its block / the block (valid only when VP_RAW_INBLK(p) or VP_IS_QB(p)) */
+#define VP_RAW_IDX(p) ((uint32_t)(VP_RAW_OFF(p) - QB_OFF))
+#define VP_RAW_BLK(p) ((QAD*)VP_RAW_HDR(p))
+#else
+static const struct qb *vp_raw_find(const void *p) { const char *c = (const char*)p;
+  for (unsigned i = vp_nblk[1]; i-- > 0;) { const char *b = (const char*)vp_blks[1][i]; if (c >= b + QB_OFF && c < b + sizeof(struct qb)) return (const struct qb*)b; } return 0; }
+static int vp_raw_ok(const void *p, uint64_t n, uint64_t slack) { if (!n) return 1; const struct qb *b = vp_raw_find(p); if (!b) return 1;
+  return (uint64_t)((const char*)p - (const char*)b) - QB_OFF + n <= (uint64_t)b->h.f1 + slack; }
+#define VP_RAW_INBLK(p) (vp_raw_find(p) != 0)
+#define VP_RAW_R_OK(p, n) vp_raw_ok((p), (uint64_t)(n), 1)
+#define VP_RAW_W_OK(p, n) vp_raw_ok((p), (uint64_t)(n), 0)
+#define VP_RAW_IDX(p) ((uint32_t)((const char*)(p) - (const char*)vp_raw_find(p) - QB_OFF))
+#define VP_RAW_BLK(p) ((QAD*)vp_raw_find(p))
+#endif
+#define VP_SAFE(c, m) do { VP_ASSERT(c, "C14 safety: " m); ASSUME(c); } while (0)
 static struct qb vp_qb_zero;   /* all-zero template: blocks are initialised by one struct assignment (constants, no loop) */
 static QAD *qbv_new(uint32_t len, uint32_t hint) { struct qb *s = malloc(sizeof(struct qb)); ASSUME(s != 0); *s = vp_qb_zero;
   REF(&s->h) = 1; s->h.f1 = len; s->h.f2 = QB_CAP + 1; s->h.f3 = QB_OFF; s->hint = umin(hint, QB_CAP); VP_REG_BLK(s, 1); return &s->h; }
@@ -43,7 +80,10 @@ char* _ZN10QByteArray6appendEc(char *self, uint8_t c) { QAD *o = *(QAD**)self;
   uint32_t n = o->f1; ASSERT(n < QB_CAP, "QByteArray capacity of the model exceeded"); BD(o)[n] = c; BD(o)[n + 1] = 0; o->f1 = n + 1; struct qb *q = (struct qb*)o; if (q->hint < n + 1) q->hint = n + 1; return self; }
 #define PHINT(p, n) (VP_IS_QB(p) ? ((struct qb*)((char*)(p) - QB_OFF))->hint : (uint32_t)(n))
 static uint32_t vpl_x_strnlen(const uint8_t *p, uint32_t maxlen) { uint32_t n = 0; for (; n < PHINT(p, maxlen) && n < QB_CAP; n++) { if (n >= maxlen) break; if (!p[n]) break; } return n; }
-uint32_t _Z8qstrnlenPKcj(char *s, uint32_t maxlen) { if (!s) return 0; return vpl_x_strnlen((uint8_t*)s, maxlen); }
+/* qstrnlen(s, maxlen) touches the bytes up to and including the first NUL, at most maxlen */
+uint32_t _Z8qstrnlenPKcj(char *s, uint32_t maxlen) { if (!s) return 0; uint32_t r = vpl_x_strnlen((uint8_t*)s, maxlen);
+  VP_SAFE(VP_RAW_R_OK(s, r < maxlen ? r + 1 : maxlen), "qstrnlen reads inside the byte array its argument points into");
+  return r; }
 /* ---- UTF-8 <-> UTF-16 with byte length != unit length, as a per-instance case split (cdef VP_U8PAT) ----
    The shared model is the identity on ASCII (length preserving).  With -DVP_U8PAT=<decimal digits, least significant = unit 0> every
    string of the instance has the SHAPE given by the digits: digit 1 (or 0) = unit in U+0001..U+007F (1 byte), 2 = unit in U+00C0..U+00FF
@@ -62,6 +102,7 @@ void _ZN7QString13toUtf8_helperERKS_(char *ret, char *self) { QAD *s = *(QAD**)s
     else { ASSERT((u >> 12) == 2, "toUtf8 (shape model): unit outside its shape class 3"); BD(d)[k] = 0xE2; BD(d)[k + 1] = (uint8_t)(0x80 | ((u >> 6) & 0x3f)); BD(d)[k + 2] = (uint8_t)(0x80 | (u & 0x3f)); k += 3; } }
   *(QAD**)ret = d; }
 void _ZN7QString15fromUtf8_helperEPKci(char *ret, char *p, uint32_t n) { if (!p) { *(QAD**)ret = SHARED_NULL; return; } const uint8_t *b = (const uint8_t*)p; ASSERT((int32_t)n >= 0, "fromUtf8 (shape model): explicit length");
+  VP_SAFE(VP_RAW_R_OK(p, n), "QString::fromUtf8(const char*, int) reads inside the byte array its argument points into");
   QAD *d = qs_new(0, 8); uint32_t k = 0, cnt = 0;       /* k, the byte position of unit j, is a constant: the widths come from the shape */
   for (uint32_t j = 0; j < 8; j++) { uint32_t c = u8cls(j); if (k >= n) break; ASSERT(k + c <= n, "fromUtf8 (shape model): truncated sequence");
     if (c == 1) { ASSERT(b[k] < 0x80, "fromUtf8 (shape model): byte outside its shape class 1"); SD(d)[j] = b[k]; }
@@ -78,7 +119,9 @@ uint32_t vp_text_bytes(uint32_t len) { uint32_t t = 0; for (uint32_t i = 0; i < 
 #else
 void vpcore_QString_toUtf8_helper(char *ret, char *self); void vpcore_QString_fromUtf8_helper(char *ret, char *p, uint32_t n);
 void _ZN7QString13toUtf8_helperERKS_(char *ret, char *self) { vpcore_QString_toUtf8_helper(ret, self); }
-void _ZN7QString15fromUtf8_helperEPKci(char *ret, char *p, uint32_t n) { vpcore_QString_fromUtf8_helper(ret, p, n); }
+void _ZN7QString15fromUtf8_helperEPKci(char *ret, char *p, uint32_t n) {
+  if (p && (int32_t)n >= 0) VP_SAFE(VP_RAW_R_OK(p, n), "QString::fromUtf8(const char*, int) reads inside the byte array its argument points into");
+  vpcore_QString_fromUtf8_helper(ret, p, n); }
 void vp_fresh_text(char *out, uint32_t len) { ASSERT(len <= 8, "vp_fresh_text bound"); QAD *d = qs_new(len, len);
   for (uint32_t i = 0; i < len; i++) { uint8_t c = vp_u8(); ASSUME(c >= 1 && c < 0x80); SD(d)[i] = c; } *(QAD**)out = d; }
 uint32_t vp_text_bytes(uint32_t len) { return len; }
